@@ -307,7 +307,12 @@ def sc_c06(ctx, p):
     if p['mode'] == 'names':
         names = Names(ctx)
         shape = NAME_SHAPES[ctx.choose(len(NAME_SHAPES), 'shape')]
-        nm = tuple(names.fresh(p['len'], keyword_free=True))
+        if p.get('prefix'):
+            # identifiers that begin like a temporal operator (EX_1, AGO, AUx): the tokenizer decides by look-ahead
+            PRE = ['EX', 'EF', 'EG', 'EU', 'EW', 'AX', 'AF', 'AG', 'AU', 'AW']
+            nm = tuple(map(ord, PRE[ctx.choose(len(PRE), 'prefix')])) + tuple(names.fresh(p['len']))
+            ctx.assume(not_keyword(list(nm)))
+        else: nm = tuple(names.fresh(p['len'], keyword_free=True))
         phi = shape(nm); root = ('names',)
     else:
         o = lambda s_: tuple(map(ord, s_))
